@@ -95,6 +95,16 @@ CLAIMED["C07"] = {
     "note": TB + "; nom/serde_json/byteorder not modelled",
     "technique": "Lean 4 proof (token-level round trip, byte/row codecs, padding) + differential correspondence on real bytes + direct round-trip checks for the unmodelled options",
 }
+CLAIMED["C11"] = {
+    "text": "Word-level model of the FITS version-2 space-time payload (MSB-flagged time rows followed by space rows; reader = one pass splitting on the alternation, transliterated from "
+            "RangeMoc2DIterFromFits::next). Theorem fits_st_roundtrip: for EVERY list of elements with non-empty time and space parts (any number of elements and ranges, time bounds up to the "
+            "highest usable bits) decoding the encoded rows returns exactly the elements; row count = total number of ranges; the empty MOC; a proved counterexample shows the non-empty-space "
+            "hypothesis is necessary. Tied to the code both ways on real files (writer rows = model rows, reader = model reader) plus idempotence of re-serialisation. Partial: ASCII and JSON "
+            "ST syntaxes, headers and depth keywords are checked by direct round trips on real bytes (test level), not modelled; u64 only.",
+    "design_ref": "DESIGN.md §4 C11, §10",
+    "note": TB + "; bit test modelled arithmetically; ASCII/JSON ST syntaxes tested not proved",
+    "technique": "Lean 4 proof (row codec round trip by induction over elements) + differential correspondence on real FITS files + direct round-trip checks for ASCII/JSON",
+}
 CLAIMED["C12"] = {
     "text": "Theorems on the ASCII reader model: whatever it accepts has a declared depth within the quantity's maximum, only elements inside the domain of their own depth, pairwise non-overlapping, "
             "and yields the canonical MOC covering exactly those elements; every number carried by a token (incl. the exclusive end) fits the index type; the reader is total. The real reader is tied to "
@@ -192,9 +202,6 @@ CLAIMED["C10"] = {
     "technique": "Lean 4 proof on the specification + point-wise correspondence",
 }
 NOT_YET = {
-    "C11": "not claimed: the check was not built in the time available. The technique applies (DESIGN.md §4 C11: word-level model of the MSB-flagged FITS v2 rows with a split-on-alternation "
-           "theorem, token model of the 't... s...' ASCII syntax reusing Model/Codec.lean, correspondence on real bytes); nothing about C11 is asserted by this deliverable. A confirmed seeded change "
-           "for it is kept under seeded/C11. See DESIGN.md §10.6.",
     "C19": "not claimed: the check was not built in the time available. The technique applies (DESIGN.md §4 C19: dispatch-table model composed from the C01/C05/C07 models, correspondence driving the "
            "rebuilt `moc` binary the way C14-C16 drive `mocset`); nothing about C19 is asserted by this deliverable. See DESIGN.md §10.6.",
 }
